@@ -413,8 +413,9 @@ def egStrongScore (e : EG) (b : BBs) (board : List Nat) (stm strong : Nat) : Int
           if fdiff.natAbs = 1 ∧ !moreThanOne (pawns &&& fileBB file1) ∧ rankOf fp > rankOf fp2 ∧ sqColor fp = sqColor sb then
             let block1 := mkSquare (rankOf fp + 1) file1
             let block2 := mkSquare (rankOf fp) file2
-            if nwk = block1 ∧ (wb = block2 ∨ (bishopAttack wb b.all &&& sqBB block2) ≠ 0) then drawV
-            else if nwk = block2 ∧ (wb = block1 ∨ (bishopAttack wb b.all &&& sqBB block1) ≠ 0) then drawV
+            -- (after the C13 fix: the rays are walked from the bishop's real square on the real board and tested on the real squares)
+            if nwk = block1 ∧ (wb = block2 ∨ (bishopAttack (sq1 weak BISHOP) b.all &&& sqBB (normSq block2 strong)) ≠ 0) then drawV
+            else if nwk = block2 ∧ (wb = block1 ∨ (bishopAttack (sq1 weak BISHOP) b.all &&& sqBB (normSq block1 strong)) ≠ 0) then drawV
             else dflt
           else dflt
         else dflt
